@@ -20,4 +20,5 @@ def run(F, rep):
     dt_graph.fix_exts_table(F, rep, "C03.4")
     dt_graph.censor_tables(F, rep, "C03.5")
     dt_graph.max_path_table(F, rep, "C03.7")
+    dt_graph.beam_expand_table(F, rep, "C03.7")
     dt_graph.sequence_of_path_table(F, rep, "C03.8")
